@@ -122,11 +122,15 @@ pub fn request(t: &ohkami::testing::TestingOhkami, method: &str, path: &str) -> 
 
 /// one request given as raw bytes of the request line target, through the real parser, router and serializer (hooks H2): the wire bytes
 pub fn wire(t: &ohkami::testing::TestingOhkami, method: &str, target: &[u8], headers: &[(Vec<u8>, Vec<u8>)], body: &[u8]) -> Result<Vec<u8>, String> {
+    wire_tail(t, method, target, headers, body, b"")
+}
+/// the same, with `tail` arriving behind the body in the same read (a stray CRLF, the next pipelined request): not part of this request
+pub fn wire_tail(t: &ohkami::testing::TestingOhkami, method: &str, target: &[u8], headers: &[(Vec<u8>, Vec<u8>)], body: &[u8], tail: &[u8]) -> Result<Vec<u8>, String> {
     let mut raw = Vec::new();
     raw.extend_from_slice(method.as_bytes()); raw.push(b' '); raw.extend_from_slice(target); raw.extend_from_slice(b" HTTP/1.1\r\n");
     for (k, v) in headers { raw.extend_from_slice(k); raw.extend_from_slice(b": "); raw.extend_from_slice(v); raw.extend_from_slice(b"\r\n"); }
     if !body.is_empty() { raw.extend_from_slice(format!("Content-Length: {}\r\n", body.len()).as_bytes()); }
-    raw.extend_from_slice(b"\r\n"); raw.extend_from_slice(body);
+    raw.extend_from_slice(b"\r\n"); raw.extend_from_slice(body); raw.extend_from_slice(tail);
     // one request object per thread, cleared before each read, as the session loop keeps one per connection: what an earlier request left
     // in it (path, query, headers, payload, context) is there to be found by the next
     thread_local! { static REQ: std::cell::RefCell<Request> = std::cell::RefCell::new(Request::__verif_init()); }
